@@ -272,6 +272,8 @@ class _Path:
             return VFS.oracle("exists", p)
         if len(VFS.files):
             return VFS.lookup(p) is not None or VFS.has_dir(p)
+        if core.issym(p):
+            return False    # program text / symbolic names are not paths of the real file system
         return os.path.exists(conc(p))
 
     @staticmethod
@@ -280,6 +282,8 @@ class _Path:
             return VFS.oracle("isfile", p)
         if len(VFS.files):
             return VFS.lookup(p) is not None
+        if core.issym(p):
+            return False
         return os.path.isfile(conc(p))
 
     @staticmethod
@@ -288,6 +292,8 @@ class _Path:
             return VFS.oracle("isdir", p)
         if len(VFS.files):
             return VFS.has_dir(p)
+        if core.issym(p):
+            return False
         return os.path.isdir(conc(p))
 
     @staticmethod
